@@ -404,8 +404,15 @@ def run(ctx: Context) -> None:
         fip, tpp = bf.params[0], bf.params[1]
         bm_ = Matcher(ctx, bf)
         ok = bm_.has(f"$orig = set({fip}.tolist())", f"$fn = {tpp}.face_node_array", f"$nodes = set(numpy.unique($fn[{fip}].compressed()))")
-        gens = [n for n in ast.walk(bf.node) if isinstance(n, ast.GeneratorExp)]
-        gen = bm_.expr("($f for $f, $row in enumerate($fn) if $f in $orig or bool($nodes.intersection($row.compressed())))") if ok else None
+        gens = [n for n in ast.walk(bf.node) if isinstance(n, (ast.GeneratorExp, ast.ListComp))]
+        gen = None
+        if ok:
+            # (a generator or a list of the same faces; in a filter `bool(x)` and `x` ask the same)
+            for form in ("($f for $f, $row in enumerate($fn) if $f in $orig or bool($nodes.intersection($row.compressed())))",
+                         "($f for $f, $row in enumerate($fn) if $f in $orig or $nodes.intersection($row.compressed()))",
+                         "[$f for $f, $row in enumerate($fn) if $f in $orig or bool($nodes.intersection($row.compressed()))]",
+                         "[$f for $f, $row in enumerate($fn) if $f in $orig or $nodes.intersection($row.compressed())]"):
+                gen = gen or bm_.expr(form)
         fr_ = [c for c in calls_in(bf) if callee(ctx, bf, c) == 'numpy.fromiter']
         ok2 = gen is not None and len(gens) == 1 and len(fr_) == 1 and bflow2.resolve(fr_[0].args[0]) is gen \
             and bool(bf.returns()) and all(bflow2.reaches(r.value, lambda n: n is fr_[0]) for r in bf.returns())
@@ -466,6 +473,11 @@ def run(ctx: Context) -> None:
         sites = []          # (size expression, index expression, node standing for the table, site for reports)
         helper = p.functions.get(f"{mf.qualname}.<locals>.new_element_indexes")
         hname = 'new_element_indexes'
+        if helper is None:
+            # the nested helper under whatever name it has: the one nested function that numbers with arange(len(...))
+            nested_ = [f for f in p.functions.values() if f.parent is mf and 'numpy.arange(len(' in ast.unparse(f.node)]
+            if len(nested_) == 1:
+                helper, hname = nested_[0], nested_[0].name
         if helper is None:
             for n in calls_in(mf, nested=False):
                 if isinstance(n.func, ast.Name) and len(n.args) >= 2 and p.functions.get(f"{mf.module.name}.{n.func.id}") is not None \
